@@ -228,6 +228,11 @@ func (s Schema) JSONLookup(token string) (interface{}, error) {
 		return &ex, nil
 	}
 
+	if token == "$schema" && s.Schema != "" {
+		// written by MarshalJSON, but not a field reflection knows by that name
+		return string(s.Schema), nil
+	}
+
 	r, _, err := jsonpointer.GetForToken(s.SchemaProps, token)
 	if r != nil || (err != nil && !strings.HasPrefix(err.Error(), "object has no field")) {
 		return r, err
